@@ -1,0 +1,17 @@
+package protocol
+
+import (
+	"github.com/hujm2023/go-sms-protocol/datacoding"
+	"github.com/hujm2023/go-sms-protocol/verifhook"
+)
+
+// fanOutOrder lists the candidate set in the order in which Build starts its workers: the iteration order of the
+// Go map, which a simulator (build tag verif) may replace by an order of its own choosing.
+func fanOutOrder(set map[datacoding.ProtocolDataCoding]struct{}) []datacoding.ProtocolDataCoding {
+	keys := make([]datacoding.ProtocolDataCoding, 0, len(set))
+	for k := range set {
+		keys = append(keys, k)
+	}
+	verifhook.PermuteBatch(len(keys), func(i int) [2]int { return [2]int{keys[i].ToInt(), keys[i].Priority()} }, func(i, j int) { keys[i], keys[j] = keys[j], keys[i] })
+	return keys
+}
